@@ -5,8 +5,9 @@
   paths; no bound on the number of steps, '..' steps or predicates.
 -/
 import YV.Spec.XCompile
+import YV.Proofs.XSpec
 namespace YV.XM
-open YV YV.X YV.XL YV.XP YV.XPS YV.XC
+open YV YV.X YV.XL YV.XP YV.XPS YV.XC YV.XS
 
 @[simp] theorem R_bind_ok {α β} (a : α) (f : α → R β) : ((Except.ok a : R α) >>= f) = f a := rfl
 @[simp] theorem R_bind_err {α β} (e : Fail) (f : α → R β) : ((Except.error e : R α) >>= f) = Except.error e := rfl
@@ -70,20 +71,141 @@ theorem exec_ssteps (fx : Bool) (t : Tree) (steps : List SStep) (s : MSt) (top :
             { top with elems := top.elems ++ [{ name := runesToStr (strToRunes n) }] } rfl hc he]
       simp [sstepElem, List.append_assoc]
 
+/-! ### function-result operands: the scalar sub-machine inside a predicate -/
+
+/-- the environment of a closed expression -/
+def env0 : Env := fun _ => .emptyNodeset
+
+mutual
+/-- no data operand and no `=` (inside a predicate the `=` instruction records a key) -/
+def ClosedNoEq : Expr → Prop
+  | .num _ | .lit _ => True
+  | .env _ => False
+  | .neg e => ClosedNoEq e
+  | .bin op a b => op ≠ .eq ∧ ClosedNoEq a ∧ ClosedNoEq b
+  | .call _ args => ClosedNoEqs args
+def ClosedNoEqs : List Expr → Prop
+  | [] => True
+  | e :: es => ClosedNoEq e ∧ ClosedNoEqs es
+end
+
+/-- a function-result operand the theorem covers: arity-correct calls of functions whose body is proved equal
+    to the specification's, no data operand, no `=` -/
+def GoodScalar (e : Expr) : Prop := WellFormed e ∧ PureX e ∧ ClosedNoEq e
+
+def failM {α} (m : String) : R α := .error { err := .internal m }
+
+theorem liftM_ok {α} (a : α) : liftM (Except.ok a : M α) = .ok a := rfl
+theorem liftM_err {α} (m : String) : liftM (Except.error m : M α) = (failM m : R α) := rfl
+
+theorem stepBin_eq (op : BinOp) (hop : op ≠ .eq) (a b : Datum) (σ : List Datum) :
+    stepBin op (b :: a :: σ) = (binM op a b >>= fun v => pure (v :: σ)) := by
+  cases op <;>
+    simp only [stepBin, popNum, popBool, pop, binM, X.bind_ok, X.pure_eq_ok] <;>
+    first
+    | (cases hb : b.toNum <;> simp only [X.bind_ok, X.bind_err] <;>
+        cases ha : a.toNum <;> simp [X.bind_ok, X.bind_err])
+    | (cases hb : b.toBool <;> simp only [X.bind_ok, X.bind_err] <;>
+        cases ha : a.toBool <;> simp [X.bind_ok, X.bind_err])
+    | exact absurd rfl hop
+    | (cases hc : X.compare _ a b <;> simp [X.bind_ok, X.bind_err])
+
+theorem step_binPI (t : Tree) (op : BinOp) (hop : op ≠ .eq) (s : MSt) :
+    step true t (binPI op) s = (do let σ ← liftM (stepBin op s.stack); pure { s with stack := σ }) := by
+  cases op <;> first | exact absurd rfl hop | rfl
+
+mutual
+theorem exec_scalar (t : Tree) : ∀ (e : Expr), WellFormed e → PureX e → ClosedNoEq e → ∀ (k : List PI) (s : MSt),
+    exec true t (scalarCode e ++ k) s =
+      (match evalM env0 e with
+       | .ok d => exec true t k { s with stack := d :: s.stack }
+       | .error m => failM m)
+  | .num x, _, _, _, k, s => by simp [scalarCode, exec, step, evalM]
+  | .lit l, _, _, _, k, s => by simp [scalarCode, exec, step, evalM]
+  | .env _, _, _, hc, _, _ => by simp [ClosedNoEq] at hc
+  | .neg a, hw, hp, hc, k, s => by
+    simp only [WellFormed] at hw; simp only [PureX] at hp; simp only [ClosedNoEq] at hc
+    simp only [scalarCode, List.append_assoc, evalM]
+    rw [exec_scalar t a hw hp hc]
+    cases ha : evalM env0 a with
+    | error m => simp [failM]
+    | ok v =>
+      simp only [X.bind_ok, List.cons_append, List.nil_append, exec, step, popNum, pop]
+      cases hn : v.toNum with
+      | error m => simp [liftM, failM]
+      | ok x => simp [liftM]
+  | .bin op a b, hw, hp, hc, k, s => by
+    simp only [WellFormed] at hw; simp only [PureX] at hp; simp only [ClosedNoEq] at hc
+    simp only [scalarCode, List.append_assoc, evalM]
+    rw [exec_scalar t a hw.1 hp.1 hc.2.1]
+    cases ha : evalM env0 a with
+    | error m => simp [failM]
+    | ok x =>
+      simp only [X.bind_ok]
+      rw [exec_scalar t b hw.2 hp.2 hc.2.2]
+      cases hb : evalM env0 b with
+      | error m => simp [failM]
+      | ok y =>
+        simp only [X.bind_ok, List.cons_append, List.nil_append, exec]
+        rw [step_binPI t op hc.1, stepBin_eq op hc.1 x y s.stack]
+        cases hm : binM op x y with
+        | error m => simp [liftM, failM]
+        | ok v => simp [liftM]
+  | .call f args, hw, hp, hc, k, s => by
+    simp only [WellFormed] at hw; simp only [PureX] at hp; simp only [ClosedNoEq] at hc
+    simp only [scalarCode, List.append_assoc, evalM]
+    rw [exec_scalars t args hw.2 hp.2 hc]
+    cases hl : evalListM env0 args with
+    | error m => simp [failM]
+    | ok vs =>
+      have hlen : vs.length = args.length := evalListM_length env0 args vs hl
+      have hcur : f ≠ .current := by intro e; subst e; simp [pureFn] at hp
+      simp only [X.bind_ok, List.cons_append, List.nil_append, exec, step, hcur, ↓reduceIte, popArgs]
+      rw [popArgsRev_append _ _ _ (by simp [hlen, hw.1])]
+      cases hcv : convArgsRev f.sig.1.reverse vs.reverse with
+      | error m => simp [liftM, failM]
+      | ok cs =>
+        simp only [X.bind_ok, X.pure_eq_ok, liftM_ok, R_bind_ok]
+        cases hb : bltin f cs.reverse with
+        | error m => simp [liftM, failM]
+        | ok v => simp [liftM]
+theorem exec_scalars (t : Tree) : ∀ (es : List Expr), WellFormedList es → PureXs es → ClosedNoEqs es →
+    ∀ (k : List PI) (s : MSt),
+    exec true t (scalarListCode es ++ k) s =
+      (match evalListM env0 es with
+       | .ok vs => exec true t k { s with stack := vs.reverse ++ s.stack }
+       | .error m => failM m)
+  | [], _, _, _, k, s => by simp [scalarListCode, evalListM]
+  | e :: es, hw, hp, hc, k, s => by
+    simp only [WellFormedList] at hw; simp only [PureXs] at hp; simp only [ClosedNoEqs] at hc
+    simp only [scalarListCode, List.append_assoc, evalListM]
+    rw [exec_scalar t e hw.1 hp.1 hc.1]
+    cases he : evalM env0 e with
+    | error m => simp [failM]
+    | ok v =>
+      simp only [X.bind_ok]
+      rw [exec_scalars t es hw.2 hp.2 hc.2]
+      cases hl : evalListM env0 es with
+      | error m => simp [failM]
+      | ok vs => simp
+end
+
+theorem env0_simple : SimpleEnv env0 := fun _ => trivial
+
 /-- the request path of a predicate-free operand path evaluated at step `here` -/
 def operandPath (here : Path) (p : SPath) : Path :=
   let base := rootBase here p.root
   { base with elems := base.elems ++ p.steps.map sstepElem }
 
-/-- operands covered by the theorem (function-result operands: see C02_nav_partial) -/
-def simpleOp : Operand → Bool
-  | .scalar _ => false
-  | _ => true
+/-- operands covered by the theorem -/
+def okOp : Operand → Prop
+  | .scalar e => GoodScalar e
+  | _ => True
 
 def operandDatum (t : Tree) (here : Path) : Operand → Datum
   | .lit s => .lit s
   | .num x => .num x
-  | .scalar _ => .invalid
+  | .scalar e => (match evalM env0 e with | .ok d => d | .error _ => .invalid)
   | .path p => t.value (operandPath here p)
 
 def operandReqs (here : Path) : Operand → List String
@@ -99,7 +221,7 @@ theorem evalInternal_ok (t : Tree) (hf : NoFault t) (s : MSt) (p q : Path) (rest
   simp only [evalInternal, popPath, hp, R_bind_ok, R_pure, callback_ok t hf, newFromActual]
 
 /-- one operand, evaluated inside the predicate of the step whose path is `here` -/
-theorem exec_operand (t : Tree) (hf : NoFault t) (op : Operand) (hs : simpleOp op = true) (s : MSt)
+theorem exec_operand (t : Tree) (hf : NoFault t) (op : Operand) (hs : okOp op) (s : MSt)
     (here : Path) (rest : List Path)
     (hp : s.paths = here :: here :: rest) (hc : s.predCount > 0) (he : s.predEvalPath = 1) :
     ∃ pe, (pe = 1 ∨ pe = 2) ∧
@@ -115,7 +237,13 @@ theorem exec_operand (t : Tree) (hf : NoFault t) (op : Operand) (hs : simpleOp o
   | num x =>
     refine ⟨1, Or.inl rfl, ?_⟩
     simp [operandCode, exec, step, operandDatum, operandReqs, ← he]
-  | scalar e => simp [simpleOp] at hs
+  | scalar e =>
+    refine ⟨1, Or.inl rfl, ?_⟩
+    obtain ⟨hw, hpx, hcl⟩ := hs
+    obtain ⟨d, h1, _, _⟩ := evalM_spec env0 env0_simple e hw hpx
+    have := exec_scalar t e hw hpx hcl [] s
+    simp only [List.append_nil, h1, exec] at this
+    simp [operandCode, this, operandDatum, h1, operandReqs, ← he]
   | path p =>
     refine ⟨2, Or.inr rfl, ?_⟩
     obtain ⟨root, steps⟩ := p
@@ -143,13 +271,20 @@ theorem toLit_litOf (d : Datum) (h : d ≠ .invalid) : d.toLit = .ok (litOf d) :
 /-- the tree never hands out the `invalid` datum (it is a test-only value of the Go code) -/
 def ValidTree (t : Tree) : Prop := ∀ p, t.value p ≠ .invalid
 
-theorem operandDatum_valid (t : Tree) (hv : ValidTree t) (here : Path) (op : Operand) (hs : simpleOp op = true) :
+theorem operandDatum_valid (t : Tree) (hv : ValidTree t) (here : Path) (op : Operand) (hs : okOp op) :
     operandDatum t here op ≠ .invalid := by
-  cases op <;> simp_all [operandDatum, simpleOp]
-  exact hv _
+  cases op with
+  | lit l => simp [operandDatum]
+  | num x => simp [operandDatum]
+  | path p => exact hv _
+  | scalar e =>
+    obtain ⟨hw, hpx, _⟩ := hs
+    obtain ⟨d, h1, h2, _⟩ := evalM_spec env0 env0_simple e hw hpx
+    simp only [operandDatum, h1]
+    exact simple_ne_invalid h2
 
 /-- one predicate `[k = op]` on the step whose path is `here` -/
-theorem exec_pred (t : Tree) (hf : NoFault t) (hv : ValidTree t) (k : Str) (op : Operand) (hs : simpleOp op = true)
+theorem exec_pred (t : Tree) (hf : NoFault t) (hv : ValidTree t) (k : Str) (op : Operand) (hs : okOp op)
     (s : MSt) (here : Path) (rest : List Path) (m : List (Str × Str)) (ms : List (List (Str × Str)))
     (hp : s.paths = here :: rest) (hc : s.predCount = 0) (he : s.predEvalPath = 0) (hm : s.preds = m :: ms) :
     exec true t (predCode (k, op)) s = .ok { s with
@@ -173,18 +308,22 @@ theorem exec_pred (t : Tree) (hf : NoFault t) (hv : ValidTree t) (k : Str) (op :
     Nat.one_ne_zero, decide_false, Bool.or_self, popPath, hk, hm, newFromActual, R_pure,
     toLit_litOf _ (operandDatum_valid t hv here op hs)]
 
-theorem operandValue_eq (t : Tree) (here : Path) (op : Operand) (hs : simpleOp op = true) :
+theorem operandValue_eq (t : Tree) (here : Path) (op : Operand) (hs : okOp op) :
     operandValue t here op = (litOf (operandDatum t here op), operandReqs here op) := by
   cases op with
   | lit l => simp [operandValue, operandDatum, operandReqs, litOf, Datum.toLit]
   | num x => simp [operandValue, operandDatum, operandReqs, litOf, Datum.toLit, XS.stringOfNumber]
-  | scalar e => simp [simpleOp] at hs
+  | scalar e =>
+    obtain ⟨hw, hpx, _⟩ := hs
+    obtain ⟨d, h1, h2, h3⟩ := evalM_spec env0 env0_simple e hw hpx
+    have h3' : eval true (fun _ => Datum.emptyNodeset) e = some (ofDatum d) := h3
+    simp only [operandValue, operandDatum, operandReqs, h1, h3', litOf, toLit_spec h2]
   | path p => simp only [operandValue, operandDatum, operandReqs, litOf, operandPath]
 
 /-- the predicates of one step are all of the covered kind and use pairwise different keys -/
 def GoodPreds : List (Str × Operand) → Prop
   | [] => True
-  | (k, op) :: rest => simpleOp op = true ∧ (∀ kv ∈ rest, kv.1 ≠ k) ∧ GoodPreds rest
+  | (k, op) :: rest => okOp op ∧ (∀ kv ∈ rest, kv.1 ≠ k) ∧ GoodPreds rest
 
 theorem filter_noop (m : List (Str × Str)) (k : Str) (h : ∀ kv ∈ m, kv.1 ≠ k) :
     m.filter (fun kv => kv.1 ≠ k) = m := by
